@@ -229,6 +229,11 @@ def make_source(fv):
         L.append("def sp_filter(s, d, _period):\n    return jnp.logical_and(s >= _period, d >= 0)")
         funcs.append("sp_filter")
         next_s_expr = "jnp.clip(jnp.maximum(s + d, _period + 1), 0, 2)"
+    elif fv["filt"] == "dp":
+        # (explicit members only) a second filter that involves NO state: choice and period only
+        L.append("def sd_filter(s, d):\n    return jnp.logical_or(d == 0, s < 2)")
+        L.append("def dp_filter(d, _period):\n    return d <= _period")
+        funcs += ["sd_filter", "dp_filter"]
     elif fv["filt"] == "se":
         L.append("def se_filter(s, e):\n    return e <= 2 - s")
         funcs.append("se_filter")
